@@ -336,6 +336,26 @@ func (o *ovsdbClient) connect(ctx context.Context, reconnect bool) error {
 	return nil
 }
 
+// serialWriteCodec serialises the writes of a codec. rpc2 writes requests
+// under one lock and the responses to the peer's requests under none, while the
+// JSON codec shares one encoder between both.
+type serialWriteCodec struct {
+	rpc2.Codec
+	mu sync.Mutex
+}
+
+func (c *serialWriteCodec) WriteRequest(r *rpc2.Request, v interface{}) error {
+	c.mu.Lock()
+	defer c.mu.Unlock()
+	return c.Codec.WriteRequest(r, v)
+}
+
+func (c *serialWriteCodec) WriteResponse(r *rpc2.Response, v interface{}) error {
+	c.mu.Lock()
+	defer c.mu.Unlock()
+	return c.Codec.WriteResponse(r, v)
+}
+
 // tryEndpoint connects to a single database endpoint. Returns the
 // server ID (if clustered) on success, or an error.
 func (o *ovsdbClient) tryEndpoint(ctx context.Context, u *url.URL) (string, error) {
@@ -437,7 +457,7 @@ func (o *ovsdbClient) createRPC2Client(conn net.Conn) {
 	if o.options.inactivityTimeout > 0 {
 		o.trafficSeen = make(chan struct{})
 	}
-	o.rpcClient = rpc2.NewClientWithCodec(jsonrpc.NewJSONCodec(conn))
+	o.rpcClient = rpc2.NewClientWithCodec(&serialWriteCodec{Codec: jsonrpc.NewJSONCodec(conn)})
 	o.rpcClient.SetBlocking(true)
 	o.rpcClient.Handle("echo", func(_ *rpc2.Client, args []interface{}, reply *[]interface{}) error {
 		return o.echo(args, reply)
